@@ -1,10 +1,13 @@
 import Comdex.Lemmas.DutchPrice
 import Comdex.Lemmas.DutchV2
+import Comdex.Lemmas.DutchV1
 /-!
 # C10 — Dutch auctions settle completely and sell at the posted, falling price
 
-Property clause → theorem (models: `Model/DutchPrice.lean` for both generations, `Model/DutchV2.lean` for the
-second-generation bid path; first-generation bid path: price functions only, see notes/C10.md)
+Property clause → theorem (models: `Model/DutchPrice.lean` price functions of both generations, `Model/DutchV2.lean`
+second-generation bid path (vault / lend / external), `Model/DutchV1.lean` first-generation bid path for seized vaults;
+first-generation lend auctions `dutch_lend.go`: price functions only, see notes/C10.md).  The first-generation versions of
+the bid-path theorems are the `v1_…` theorems at the end; they hold without exception.
 
 * "start price (oracle price times premium)"                         → `start_price_is_oracle_times_premium`
 * "between restarts the posted price is non-increasing in time"      → `price_nonincreasing` (any `tau > 0`),
@@ -39,6 +42,9 @@ second-generation bid path; first-generation bid path: price functions only, see
 -/
 namespace Comdex.C10
 open Comdex Comdex.Dec Comdex.DutchPrice Comdex.DutchV2
+
+-- `Dec.fits` compares with 2^315; let `decide` evaluate it in the concrete witnesses below
+set_option exponentiation.threshold 512
 
 /-! ## price functions (both generations) -/
 
@@ -353,5 +359,104 @@ the module account: 100 000 of the stranger's 700 000 deposit are gone (600 000 
 theorem close_distributes_all_counterexample :
     rsFinal.auc = none ∧ rsFinal.otherD = 700000 ∧ rsFinal.bank.get .auction .debt = 600000 ∧ rsFinal.short = 100000 ∧
     rsFinal.reserve = some (-99990) ∧ rsFinal.paid = 1020000 := by decide
+
+
+/-! ## first-generation bid path (`x/auction/keeper/dutch.go`) -/
+
+namespace V1
+open Comdex.DutchV1
+
+/-- the record `StartDutchAuction` writes -/
+structure Start (e : DutchV1.Env) (a : DutchV1.Auc) : Prop where
+  out : a.outCur = e.coll0
+  inn : a.inCur = 0
+  target_nonneg : 0 ≤ e.target
+  coll_nonneg : 0 ≤ e.coll0
+  principal_nonneg : 0 ≤ e.principal
+
+theorem init_inv (e : DutchV1.Env) (a : DutchV1.Auc) (b : Bank) (nf : Option Int) (hs : Start e a) :
+    DutchV1.Inv e (DutchV1.initSt e a b nf) := by
+  refine ⟨by simp [DutchV1.initSt], by simp [DutchV1.initSt], ?_, ?_⟩
+  · intro a' ha'
+    simp only [DutchV1.initSt, Option.some.injEq] at ha'
+    subst ha'
+    simp only [DutchV1.initSt]
+    refine ⟨by rw [hs.inn], by rw [hs.inn]; exact hs.target_nonneg, by rw [hs.out]; omega, by rw [hs.out]; exact hs.coll_nonneg,
+      by rw [hs.out]; omega, by rw [hs.inn]; omega⟩
+  · intro hn; simp [DutchV1.initSt] at hn
+
+end V1
+
+/-- **first generation: bidders pay ≤ target and receive ≤ the seized collateral**, for every sequence of bids (any bidders,
+any amounts incl. zero/negative/over-sized) and block hooks (price updates, restarts, any oracle path) -/
+theorem v1_bidders_pay_le_target_and_receive_le_collateral (e : DutchV1.Env) (a : DutchV1.Auc) (b : Bank) (nf : Option Int)
+    (hs : V1.Start e a) (ops : List DutchV1.Op) :
+    let s := DutchV1.run e (DutchV1.initSt e a b nf) ops
+    0 ≤ s.paid ∧ s.paid ≤ e.target ∧ 0 ≤ s.recv ∧ s.recv ≤ e.coll0 := by
+  have hi := DutchV1.run_inv hs.principal_nonneg ops _ (V1.init_inv e a b nf hs)
+  simp only
+  refine ⟨hi.paid_nonneg, ?_, hi.recv_nonneg, ?_⟩
+  · cases hauc : (DutchV1.run e (DutchV1.initSt e a b nf) ops).auc with
+    | none => exact (hi.closed hauc).1
+    | some a' => obtain ⟨o1, o2, _⟩ := hi.open_ a' hauc; omega
+  · cases hauc : (DutchV1.run e (DutchV1.initSt e a b nf) ops).auc with
+    | none => exact (hi.closed hauc).2.1
+    | some a' => obtain ⟨_, _, o3, o4, _⟩ := hi.open_ a' hauc; omega
+
+/-- **first generation: custody** — while open the module account holds exactly the unsold collateral and the debt collected so
+far on top of what does not belong to the auction; once closed it holds nothing of the auction -/
+theorem v1_custody_exact (e : DutchV1.Env) (a : DutchV1.Auc) (b : Bank) (nf : Option Int) (hs : V1.Start e a)
+    (ops : List DutchV1.Op) :
+    let s := DutchV1.run e (DutchV1.initSt e a b nf) ops
+    (∀ a', s.auc = some a' → s.bank.get .auction .coll = s.otherC + a'.outCur ∧ s.bank.get .auction .debt = s.otherD + a'.inCur) ∧
+    (s.auc = none → s.bank.get .auction .coll = s.otherC ∧ s.bank.get .auction .debt = s.otherD) := by
+  have hi := DutchV1.run_inv hs.principal_nonneg ops _ (V1.init_inv e a b nf hs)
+  simp only
+  refine ⟨?_, ?_⟩
+  · intro a' ha'
+    obtain ⟨_, _, _, _, o5, o6⟩ := hi.open_ a' ha'
+    exact ⟨o5, o6⟩
+  · intro hn
+    obtain ⟨_, _, c3, c4⟩ := hi.closed hn
+    exact ⟨c3, c4⟩
+
+/-- **first generation: what a bid moves and how the close distributes**: an accepted bid debits exactly `Δpaid` from the bidder
+and credits exactly `Δrecv` collateral to him, touches no other bidder; if it closes the auction then everything the bidders
+paid over the auction's life has been burned or sent to the collector (net of what the collector had to add when the collateral
+was sold out below the target) and the unsold collateral went to the owner. -/
+theorem v1_bid_moves_and_close_distributes (e : DutchV1.Env) (s s' : DutchV1.St) (who : Nat) (sl : Int)
+    (hpr : 0 ≤ e.principal) (hi : DutchV1.Inv e s) (h : DutchV1.bidE e s who sl = .ok s') :
+    s'.bank.get (.bidder who) .debt = s.bank.get (.bidder who) .debt - (s'.paid - s.paid) ∧
+    s'.bank.get (.bidder who) .coll = s.bank.get (.bidder who) .coll + (s'.recv - s.recv) ∧
+    0 ≤ s'.paid - s.paid ∧ 0 ≤ s'.recv - s.recv ∧
+    (∀ n, n ≠ who → s'.bank.get (.bidder n) .coll = s.bank.get (.bidder n) .coll ∧
+                    s'.bank.get (.bidder n) .debt = s.bank.get (.bidder n) .debt) ∧
+    (s'.auc = none →
+      (s'.burned - s.burned) + (s'.bank.get .collector .debt - s.bank.get .collector .debt) = s'.paid ∧
+      s'.bank.get .owner .coll - s.bank.get .owner .coll = e.coll0 - s'.recv) := by
+  unfold DutchV1.bidE at h
+  split at h
+  · cases h
+  · rename_i a ha
+    split at h
+    · rename_i p hp
+      have hpo := DutchV1.plan_ok hp
+      obtain ⟨_, m1, m2, m3, m4, m5, m6⟩ := DutchV1.apply_ok hpr hi ha hpo h
+      refine ⟨by rw [m3, m1]; omega, by rw [m4, m2]; omega, by rw [m1]; have := hpo.in_nonneg; omega,
+        by rw [m2]; have := hpo.slice_nonneg; omega, m5, m6⟩
+    · cases h
+
+/-- **first generation: each bid at the posted price** (`recv ≤ (paid + 2)·p_debt·dec_c/(dec_d·p_coll) + 1`) -/
+theorem v1_bid_at_posted_price (e : DutchV1.Env) (a : DutchV1.Auc) (slice0 : Int) (p : DutchV1.Plan)
+    (hdC : 0 < e.decC) (hdD : 0 < e.decD) (hpr : (0 : Int) ≤ a.price)
+    (hs : roundingSmall a.price e.decC = true) (hsb : roundingSmallBack a.inPrice e.decD = true)
+    (h : DutchV1.plan e a slice0 = .ok p) :
+    monPosted p.slice (p.inAmt + 2) 0 a.inPrice e.decD a.price e.decC = true := by
+  unfold roundingSmall at hs
+  unfold roundingSmallBack at hsb
+  simp only [Bool.and_eq_true, decide_eq_true_eq] at hs hsb
+  unfold monPosted
+  simp only [decide_eq_true_eq, Int.add_zero]
+  exact DutchV1.plan_posted h hdC hdD hpr (Int.le_of_lt hsb.1) hs.2 hsb.2
 
 end Comdex.C10
